@@ -44,6 +44,7 @@ def shards(tier, seed):
                       "depth": 3 if tier == "quick" else 4})
     specs.append({"kind": "memrow", "seed": seed, "n": 40 if tier == "quick" else 400})
     specs.append({"kind": "castable", "seed": seed})
+    specs.append({"kind": "odd_arrays", "seed": seed, "n": 150 if tier == "quick" else 3000})
     return specs
 
 
@@ -214,6 +215,7 @@ def run_memrow(spec, out):
         wp = mb.write_port(granularity=None if signed_ else 1)
         ra = ma.read_port(domain="comb")
         rb = mb.read_port(domain="comb")
+        rwatch = ma.read_port(domain="comb")        # its address is left alone across the write
         # ma also needs a (never enabled) write port so that its rows are not constant-folded
         wa = ma.write_port()
         sim = Simulator(m)
@@ -222,13 +224,46 @@ def run_memrow(spec, out):
 
         async def tb(ctx):
             model = list(init)
+            stale = []
+
+            def watch_check(kind_, wj_):
+                # a combinational read port that was already looking at a row sees the write as soon as ctx.set
+                # returns (checked before anything else is set)
+                seen, row_now = ctx.get(rwatch.data), ctx.get(ma.data[wj_])
+                if seen != row_now:
+                    stale.append(1)
+                    viol.append({"mechanism": f"comb-read-port-stale-after-row-write:{kind_}",
+                                 "detail": {"shape": [w, signed_], "depth": depth, "ops": ops[-2:], "watched_row": wj_,
+                                            "read_port": seen, "row": row_now}})
             for step in range(25):
                 i = rng.randrange(depth)
                 a = rng.randrange(0, w + 1)
                 b = rng.randrange(a, w + 1)
                 v = rng.choice([0, -1, 1, rng.randrange(-(1 << (w + 1)), 1 << (w + 1))])
-                kind = "row" if signed_ else rng.choice(["row", "slice", "part", "multi", "multi"])
+                kind = "row" if signed_ else rng.choice(["row", "slice", "part", "multi", "multi", "rows"])
                 out["evaluations"] += 1
+                wj = i if rng.random() < 0.7 else rng.randrange(depth)
+                ctx.set(rwatch.addr, wj)
+                if kind == "rows" and depth >= 2:
+                    # one write over several whole rows where only the first listed row changes
+                    j0 = i
+                    j1 = rng.choice([j for j in range(depth) if j != j0])
+                    cur1 = ctx.get(ma.data[j1]) & ((1 << w) - 1)
+                    newv = rng.getrandbits(w)
+                    v = newv | (cur1 << w)
+                    ops.append((kind, [j0, j1], v))
+                    ctx.set(rwatch.addr, j0)
+                    wj = j0
+                    ctx.set(Cat(ma.data[j0], ma.data[j1]), v)
+                    watch_check("rows", wj)
+                    ctx.set(wp.addr, j0)
+                    ctx.set(wp.data, newv)
+                    ctx.set(wp.en, (1 << w) - 1)
+                    ctx.set(cd.clk, 1); ctx.set(cd.clk, 0)
+                    ctx.set(wp.en, 0)
+                    kind = "rows-done"
+                elif kind == "rows":
+                    kind = "row"
                 if kind == "multi":
                     # a concatenation of disjoint pieces, several of them in the same row
                     pieces = []
@@ -253,6 +288,7 @@ def run_memrow(spec, out):
                         viol.append({"mechanism": f"memrow-set-exception:{type(ex).__name__}",
                                      "detail": {"shape": [w, signed_], "depth": depth, "op": ops[-1], "exception": repr(ex)}})
                         return
+                    watch_check(kind, wj)
                     pos = 0
                     per_row = {}
                     for (j, lo_, hi_) in pieces:
@@ -276,7 +312,7 @@ def run_memrow(spec, out):
                     pw = rng.randrange(0, 4)
                     tgt = ma.data[i].bit_select(off, pw); lo, hi = off, min(off + pw, w)
                     hi = max(hi, lo)
-                if kind != "multi":
+                if kind not in ("multi", "rows-done"):
                     ops.append((kind, i, lo, hi, v))
                     try:
                         ctx.set(tgt, v)
@@ -286,6 +322,7 @@ def run_memrow(spec, out):
                         viol.append({"mechanism": f"memrow-set-exception:{type(ex).__name__}",
                                      "detail": {"shape": [w, signed_], "depth": depth, "op": ops[-1], "exception": repr(ex)}})
                         return
+                    watch_check(kind, wj)
                     # the circuit: write port with bit enables
                     mask = ((1 << hi) - (1 << lo)) if lo < w else 0
                     ctx.set(wp.addr, i)
@@ -293,6 +330,8 @@ def run_memrow(spec, out):
                     ctx.set(wp.en, 1 if signed_ else mask)
                     ctx.set(cd.clk, 1); ctx.set(cd.clk, 0)
                     ctx.set(wp.en, 0)
+                if stale:
+                    return
                 rows_a = [ctx.get(ma.data[j]) for j in range(depth)]
                 rows_b = [ctx.get(mb.data[j]) for j in range(depth)]
                 ports_a = []
@@ -351,6 +390,81 @@ def run_castable(spec, out):
     out["hist"]["castable-roundtrips"] = 60
 
 
+def run_odd_arrays(spec, out):
+    """Arrays whose index cannot reach every element: signed indices (negative values select nothing), indices too
+    narrow for the element count, a single element, and multi-row memory targets.  No reference model here: the
+    circuit itself is the oracle (a combinational signal assigned the expression; a register assigned through it)."""
+    import warnings
+    from amaranth.hdl import Module, Signal, Shape, ClockDomain, Array, Value, Cat
+    from amaranth.sim import Simulator
+    rng = derive_rng("c05odd", spec["seed"])
+    for case in range(spec["n"]):
+        iw, isg = rng.choice([(1, False), (2, False), (1, True), (2, True), (3, True), (0, False)])
+        n = rng.randrange(1, 7)
+        ew = rng.choice([1, 3, 4])
+        esg = rng.random() < 0.3
+        cfg = {"index_shape": [iw, isg], "elements": n, "element_shape": [ew, esg]}
+        out["hist"][f"odd-array:index-{'s' if isg else 'u'}{iw}:elements-{n}"] = out["hist"].get(f"odd-array:index-{'s' if isg else 'u'}{iw}:elements-{n}", 0) + 1
+        m = Module()
+        cd = ClockDomain("sync", reset_less=True)
+        m.domains.sync = cd
+        idx = Signal(Shape(iw, isg), name="idx")
+        src = [Signal(Shape(ew, esg), name=f"e{k}") for k in range(n)]      # read side
+        regs = [Signal(Shape(ew, esg), name=f"r{k}", init=rng.getrandbits(ew) if not esg else 0) for k in range(n)]   # written by the circuit
+        tbr = [Signal(Shape(ew, esg), name=f"t{k}") for k in range(n)]       # written by ctx.set
+        vin = Signal(8, name="vin")
+        with warnings.catch_warnings():
+            warnings.simplefilter("ignore")
+            rd = Array(src)[idx]
+            o = Signal(Value.cast(rd).shape(), name="o")
+            m.d.comb += o.eq(rd)
+            m.d.sync += Array(regs)[idx].eq(vin)
+            tb_target = Array(tbr)[idx]
+            keep = Signal()
+            m.d.comb += keep.eq(Cat(*tbr).any())
+            sim = Simulator(m)
+        bad = []
+        ivals = list(range(-(1 << (iw - 1)), 1 << (iw - 1))) if isg else list(range(1 << iw))
+
+        async def tb(ctx):
+            for iv in ivals:
+                ctx.set(idx, iv)
+                for rep in range(2):
+                    vals = [rng.getrandbits(ew) for _ in range(n)]
+                    ctx.set(Cat(*src), sum(v << (k * ew) for k, v in enumerate(vals)))
+                    with warnings.catch_warnings():
+                        warnings.simplefilter("ignore")
+                        got, circ = ctx.get(rd), ctx.get(o)
+                    out["evaluations"] += 1
+                    if got != circ:
+                        bad.append(("read-vs-circuit-mismatch:array-with-unreachable-elements", dict(index=iv, elements=vals, testbench=got, circuit=circ)))
+                        return
+                    v = rng.getrandbits(8)
+                    before = [rng.getrandbits(ew) for _ in range(n)]
+                    ctx.set(Cat(*regs), sum(x << (k * ew) for k, x in enumerate(before)))
+                    ctx.set(Cat(*tbr), sum(x << (k * ew) for k, x in enumerate(before)))
+                    ctx.set(vin, v)
+                    ctx.set(cd.clk, 1)
+                    ctx.set(cd.clk, 0)
+                    with warnings.catch_warnings():
+                        warnings.simplefilter("ignore")
+                        ctx.set(tb_target, v if not esg else norm(v, ew, True))
+                    a, b_ = ctx.get(Cat(*regs)), ctx.get(Cat(*tbr))
+                    if a != b_:
+                        bad.append(("write-vs-circuit-mismatch:array-with-unreachable-elements", dict(index=iv, before=before, value=v, circuit=a, testbench=b_)))
+                        return
+        sim.add_testbench(tb)
+        try:
+            sim.run()
+        except Exception as ex:
+            if exc_origin(ex) != "repo":
+                raise
+            bad.append((f"odd-array-exception:{type(ex).__name__}", dict(exception=repr(ex)[:300])))
+        for mech, d in bad:
+            out["violations"].append({"mechanism": mech, "detail": dict(config=cfg, **d)})
+        out["fps"].add(fp(["odd-array", cfg]))
+
+
 def run_shard(spec):
     instrument.install_slot_invariant()
     instrument.install_construction_contracts()
@@ -404,6 +518,8 @@ def run_shard(spec):
             n += len(targets)
     elif spec["kind"] == "memrow":
         run_memrow(spec, out)
+    elif spec["kind"] == "odd_arrays":
+        run_odd_arrays(spec, out)
     elif spec["kind"] == "castable":
         run_castable(spec, out)
     out["violations"].extend(instrument.VIOLATIONS)
